@@ -90,7 +90,7 @@ def cases(tier, seed):
     out = []
     for fam in FAMILIES:
         cost = 4 if fam.startswith(("Kdq", "Linear", "NNDVI")) else 1
-        for i in range(n * 4 if fam.startswith(("HDDDM", "CDBD")) else (n * 4 if fam.startswith("NNDVI") else (n * 2 if fam.startswith(("Linear", "KdqTreeBatch", "DDM", "PageHinkley", "CUSUM")) else n))):
+        for i in range(n * 4 if fam.startswith(("HDDDM", "CDBD")) else (n * 4 if fam.startswith("NNDVI") else (n * 3 if fam.startswith("ADWIN") else (n * 2 if fam.startswith(("Linear", "KdqTreeBatch", "DDM", "PageHinkley", "CUSUM")) else n)))):
             out.append({"id": "drift/%s/%d" % (fam, i), "kind": "drift", "fam": fam, "seed": [seed, 17, i], "cost": cost})
     for fam in WARN:
         for i in range(n):
